@@ -73,23 +73,24 @@ type runRec struct {
 	listenerN     []int
 	renderK       []int64 // per bar render counter (marker)
 
-	p           *mpb.Progress
-	cancel      context.CancelFunc
-	manualCh    chan interface{}
-	delayCh     chan struct{}
-	notifCh     chan interface{}
-	uwg         *sync.WaitGroup
-	quit        chan struct{} // closed when the scenario is over (releases harness-side selects)
-	cancelled   atomic.Bool
-	pty         *ptyPair
-	mem         *memWriter
-	hookOcc     [hpCount]atomic.Int64
-	trigFired   atomic.Bool
-	refreshDead atomic.Bool
-	dead        atomic.Bool
-	trigMatch   atomic.Int64
-	perturbN    atomic.Int64
-	delaysN     atomic.Int64
+	p              *mpb.Progress
+	cancel         context.CancelFunc
+	manualCh       chan interface{}
+	delayCh        chan struct{}
+	notifCh        chan interface{}
+	uwg            *sync.WaitGroup
+	quit           chan struct{} // closed when the scenario is over (releases harness-side selects)
+	cancelled      atomic.Bool
+	pty            *ptyPair
+	mem            *memWriter
+	hookOcc        [hpCount]atomic.Int64
+	trigFired      atomic.Bool
+	refreshDead    atomic.Bool
+	faultsReturned atomic.Int64
+	dead           atomic.Bool
+	trigMatch      atomic.Int64
+	perturbN       atomic.Int64
+	delaysN        atomic.Int64
 
 	// phases (logical clock values, 0 = not reached)
 	tWaitInv, tWaitRet atomic.Int64
@@ -401,6 +402,10 @@ func (rr *runRec) buildDec(bi int, side string, ord int, d DecSpec) decor.Decora
 			x = decor.OnComplete(x, "(DONE)")
 		case "onabort":
 			x = decor.OnAbort(x, "(ABRT)")
+		case "oncompleteE":
+			x = decor.OnComplete(x, "")
+		case "onabortE":
+			x = decor.OnAbort(x, "")
 		case "both":
 			x = decor.OnCompleteOrOnAbort(x, "(FIN)")
 		case "meta":
@@ -416,14 +421,30 @@ type failingFiller struct {
 	base   mpb.BarFiller
 	n      int
 	failAt int
+	kind   int
+	rr     *runRec
 }
 
 var errFill = errors.New("scripted filler failure")
 
+// scriptedErr: the error value a failing filler / extender returns.
+func scriptedErr(kind int) error {
+	switch kind {
+	case 1:
+		return io.EOF
+	case 2:
+		return io.ErrUnexpectedEOF
+	}
+	return errFill
+}
+
 func (f *failingFiller) Fill(w io.Writer, st decor.Statistics) error {
 	f.n++
 	if f.failAt > 0 && f.n >= f.failAt {
-		return errFill
+		if f.rr != nil {
+			f.rr.faultsReturned.Add(1)
+		}
+		return scriptedErr(f.kind)
 	}
 	return f.base.Fill(w, st)
 }
@@ -473,14 +494,18 @@ func (rr *runRec) barOptions(bi int) (mpb.BarFiller, []mpb.BarOption) {
 		opts = append(opts, mpb.BarFillerOnComplete("[complete]"), mpb.BarFillerOnAbort("[aborted]"))
 	}
 	if spec.Ext > 0 || spec.ExtFailAt > 0 {
-		n, failAt, calls := spec.Ext, spec.ExtFailAt, 0
+		n, failAt, calls, kind, frag := spec.Ext, spec.ExtFailAt, 0, spec.ErrKind, spec.ExtFrag
 		opts = append(opts, mpb.BarExtender(mpb.BarFillerFunc(func(w io.Writer, st decor.Statistics) error {
 			calls++
 			if failAt > 0 && calls >= failAt {
-				return errFill
+				rr.faultsReturned.Add(1)
+				return scriptedErr(kind)
 			}
 			for j := 0; j < n; j++ {
 				fmt.Fprintf(w, "<%d+%d>\n", st.ID, j)
+			}
+			if frag {
+				fmt.Fprintf(w, "<%d+frag>", st.ID) // no newline: not a line, must not become a row
 			}
 			return nil
 		}), spec.ExtRev))
@@ -499,7 +524,7 @@ func (rr *runRec) barOptions(bi int) (mpb.BarFiller, []mpb.BarOption) {
 		if base == nil {
 			base = mpb.NopStyle().Build()
 		}
-		filler = &failingFiller{base: base, failAt: spec.FailAt}
+		filler = &failingFiller{base: base, failAt: spec.FailAt, kind: spec.ErrKind, rr: rr}
 	}
 	return filler, opts
 }
